@@ -76,7 +76,11 @@ where
 
         // Register the waker before checking the error state, so that an error
         // set concurrently by a stream after the check still wakes this task.
+        #[cfg(h3_verif)]
+        crate::verif::preempt("driver:before_register");
         self.waker().register(cx.waker());
+        #[cfg(h3_verif)]
+        crate::verif::preempt("driver:after_register");
 
         // Check if the connection is in error state
         if let Some(err) = self.get_conn_error() {
@@ -84,6 +88,8 @@ where
             // err might be a different error so match again
             return Poll::Ready(Err(self.convert_to_connection_error(err)));
         }
+        #[cfg(h3_verif)]
+        crate::verif::preempt("driver:after_check_none");
         Poll::Pending
     }
 
